@@ -128,6 +128,8 @@ func (e *enp) Serve(c gen.Connection, redial gen.NetworkDial) error {
 
 		if err := conn.Join(nc, conn.id, redial, tail); err != nil {
 			conn.log.Error("unable to join %s: %s", nc.RemoteAddr().String(), err)
+			// the peer has already added this link to its pool
+			nc.Close()
 		}
 	}
 
